@@ -176,7 +176,7 @@ def pep_friendly(vpattern):
 
 
 def gen_project(rng, mode="plain", syntaxes=None, allow_mixed=True, max_files=4, family=None, vcs="maybe",
-                allow_odd_paths=True, allow_glob=True, pep_any=False):
+                allow_odd_paths=True, allow_glob=True, pep_any=False, force_pep=False, zero_bid=False):
     while True:
         pat = gp.gen_pattern(rng, family)
         tree = rp.tokenize(pat["pattern"])
@@ -185,6 +185,8 @@ def gen_project(rng, mode="plain", syntaxes=None, allow_mixed=True, max_files=4,
     vpattern = pat["pattern"]
     epoch = gp.gen_epoch(rng, gp.has_two_digit_year(tree))
     state = gp.gen_state(rng, tree, epoch)
+    if zero_bid and "bid" in state and "BLD" not in rp.parts_of(tree) and rng.random() < 0.15:
+        state["bid"] = rng.choice(["0", "00", "0000"])
     vtext = rp.render(tree, state)
     probe = dict(state)
     if "tag" in probe:
@@ -213,6 +215,11 @@ def gen_project(rng, mode="plain", syntaxes=None, allow_mixed=True, max_files=4,
             k = rng.choice([1, 1, 2, 2, 3, 4])
             pats = gen_search_patterns(rng, tree, vpattern, pep_ok, k, marker, False, ini)
             marker += k
+            if force_pep and pep_ok and not any(p["region"] == "{pep440_version}" for p in pats):
+                m = "@k%d" % marker
+                marker += 1
+                pats.append({"raw": m + " pep={pep440_version}", "prefix": m + " pep=", "region": "{pep440_version}",
+                             "suffix": ""})
             f = gen_file(rng, path, pats, mode, regime)
         files.append(f)
     # config entries: explicit path, a glob that matches exactly this file, or the patterns split over two entries
